@@ -263,6 +263,118 @@ pub fn run(op: &str, args: &[String]) -> Option<String> {
             };
             format!("OK:{};{}", show_addr(&a), same)
         }
+        // ---- call histories on ONE object: builder-style steps interleaved with observations ----
+        "key.history" => {
+            // steps: c/u = compress_public_key(true/false), l = clone, W = re-import own WIF;
+            // observations: p to_public_key, w to_wif, g get_point, f PublicKey::from_private_key, a address string,
+            //               k locking script of that address, h to_hex
+            let kb = need!(arg_bytes(args, 0));
+            let steps = need!(args.get(1)).clone();
+            if !steps.chars().all(|c| "culWpwgfakh".contains(c)) {
+                return Some("BADARG".into());
+            }
+            let mut k = lib!(PrivateKey::from_bytes(&kb));
+            let mut out: Vec<String> = Vec::new();
+            for ch in steps.chars() {
+                match ch {
+                    'c' => k = k.compress_public_key(true),
+                    'u' => k = k.compress_public_key(false),
+                    'l' => k = k.clone(),
+                    'W' => k = lib!(PrivateKey::from_wif(&lib!(k.to_wif()))),
+                    'p' => out.push(match k.to_public_key() {
+                        Ok(p) => format!("{},{}", hex::encode(p.to_bytes().unwrap_or_default()), flag(p.is_compressed())),
+                        Err(_) => "E".into(),
+                    }),
+                    'w' => out.push(k.to_wif().unwrap_or_else(|_| "E".into())),
+                    'g' => out.push(hex::encode(k.get_point())),
+                    'f' => {
+                        let p = PublicKey::from_private_key(&k);
+                        out.push(format!("{},{}", hex::encode(p.to_bytes().unwrap_or_default()), flag(p.is_compressed())))
+                    }
+                    'a' => out.push(match k.to_public_key().and_then(|p| p.to_p2pkh_address()).and_then(|a| a.to_string()) {
+                        Ok(s) => s,
+                        Err(_) => "E".into(),
+                    }),
+                    'k' => out.push(match k.to_public_key().and_then(|p| p.to_p2pkh_address()).and_then(|a| a.get_locking_script()) {
+                        Ok(s) => hex::encode(s.to_bytes()),
+                        Err(_) => "E".into(),
+                    }),
+                    _ => out.push(k.to_hex()),
+                }
+            }
+            format!("OK:{}", out.join(";"))
+        }
+        "pub.history" => {
+            // steps: c = to_compressed, d = to_decompressed, l = clone; observations: b to_bytes+flag, x to_hex,
+            //        a address string, h HASH160 hex
+            let b = need!(arg_bytes(args, 0));
+            let steps = need!(args.get(1)).clone();
+            if !steps.chars().all(|c| "cdlbxah".contains(c)) {
+                return Some("BADARG".into());
+            }
+            let mut q = lib!(PublicKey::from_bytes(&b));
+            let mut out: Vec<String> = Vec::new();
+            for ch in steps.chars() {
+                match ch {
+                    'c' => q = lib!(q.to_compressed()),
+                    'd' => q = lib!(q.to_decompressed()),
+                    'l' => q = q.clone(),
+                    'b' => out.push(format!("{},{}", hex::encode(q.to_bytes().unwrap_or_default()), flag(q.is_compressed()))),
+                    'x' => out.push(q.to_hex().unwrap_or_else(|_| "E".into())),
+                    'a' => out.push(match q.to_p2pkh_address().and_then(|a| a.to_string()) {
+                        Ok(s) => s,
+                        Err(_) => "E".into(),
+                    }),
+                    _ => out.push(match q.to_p2pkh_address() {
+                        Ok(a) => a.to_pubkey_hash_hex(),
+                        Err(_) => "E".into(),
+                    }),
+                }
+            }
+            format!("OK:{}", out.join(";"))
+        }
+        "addr.history" => {
+            // mode s: from_string(text), h: from_pubkey_hash(bytes); steps separated by '.':
+            //   sXX set_chain_params(prefix XX), m/t/r/n = ChainParams::mainnet/testnet/regtest/stn, l = clone,
+            //   f = re-parse own string; observations: o = prefix,to_string; k = locking script; h = hash hex
+            let mode = need!(args.get(0)).clone();
+            let steps = need!(args.get(2)).clone();
+            let toks: Vec<&str> = if steps.is_empty() { Vec::new() } else { steps.split('.').collect() };
+            for t in &toks {
+                let ok = matches!(*t, "m" | "t" | "r" | "n" | "l" | "f" | "o" | "k" | "h")
+                    || (t.len() == 3 && t.starts_with('s') && hex::decode(&t[1..]).is_ok());
+                if !ok {
+                    return Some("BADARG".into());
+                }
+            }
+            let mut a = match mode.as_str() {
+                "s" => lib!(P2PKHAddress::from_string(&need!(arg_str(args, 1)))),
+                "h" => lib!(P2PKHAddress::from_pubkey_hash(&need!(arg_bytes(args, 1)))),
+                _ => return Some("BADARG".into()),
+            };
+            let mut out: Vec<String> = Vec::new();
+            for t in &toks {
+                match *t {
+                    "m" => a = lib!(a.set_chain_params(&ChainParams::mainnet())),
+                    "t" => a = lib!(a.set_chain_params(&ChainParams::testnet())),
+                    "r" => a = lib!(a.set_chain_params(&ChainParams::regtest())),
+                    "n" => a = lib!(a.set_chain_params(&ChainParams::stn())),
+                    "l" => a = a.clone(),
+                    "f" => a = lib!(P2PKHAddress::from_string(&lib!(a.to_string()))),
+                    "o" => out.push(format!("{},{}", find_prefix(&a), a.to_string().unwrap_or_else(|_| "E".into()))),
+                    "k" => out.push(match a.get_locking_script() {
+                        Ok(s) => hex::encode(s.to_bytes()),
+                        Err(_) => "E".into(),
+                    }),
+                    "h" => out.push(a.to_pubkey_hash_hex()),
+                    s => {
+                        let p = hex::decode(&s[1..]).unwrap()[0];
+                        a = lib!(a.set_chain_params(&chain(p)))
+                    }
+                }
+            }
+            format!("OK:{}", out.join(";"))
+        }
         "addr.locking" => {
             let pre = need!(arg_byte(args, 0));
             let h = need!(arg_bytes(args, 1));
